@@ -315,6 +315,7 @@ VALID_FOR = {
     'RegionMetaDescr': ['None', 'dict:label=a', 'rmeta:label=x', 'dict:'],
     'RegionVisualDescr': ['None', 'dict:color=red', 'rvis:color=red', 'dict:point=x'],
     'plain': ['str:abc', 'str:5'],
+    'TextString': ['str:abc', 'str:5'],      # the descriptor proposed_fixes/F14c.diff introduces
     'readonly': ['callable'],
 }
 # ascending pools so that annuli can be built with inner < outer
@@ -397,7 +398,7 @@ def in_domain(descr, v):
         return isinstance(v, RegionMeta) and all(k in RegionMeta.valid_keys for k in dict.keys(v))
     if descr == 'RegionVisualDescr':
         return isinstance(v, RegionVisual) and all(k in RegionVisual.valid_keys for k in dict.keys(v))
-    if descr == 'plain':       # text : str
+    if descr in ('plain', 'TextString'):       # text : str
         return isinstance(v, str)
     return True
 
@@ -491,6 +492,9 @@ class Check(PropertyCheck):
         descrs = ['ScalarPixCoord', 'OneDPixCoord', 'PositiveScalar', 'ScalarSkyCoord', 'OneDSkyCoord', 'ScalarAngle',
                   'PositiveScalarAngle', 'RegionType:PixelRegion', 'RegionType:SkyRegion', 'RegionMetaDescr',
                   'RegionVisualDescr']
+        from regions.core import attributes as A
+        if hasattr(A, 'TextString'):
+            descrs.append('TextString')
         for d in descrs:
             for v in CATALOGUE:
                 cases.append({'kind': 'validate', 'descr': d, 'val': v})
@@ -544,6 +548,11 @@ class Check(PropertyCheck):
                 c['kw'] = self._items(rng, vis, rng.choice([0, 0, 1, 2]), ident=True)
             c['ops'] = [{'o': 'meta', 'f': None, 'm': self._meta_op(rng, vis)} for _ in range(rng.randint(0, 12))]
             cases.append(c)
+        # RegionMask constructor: data shape vs bounding-box shape
+        for _ in range(150 if tier == 'quick' else 5000):
+            h, w = rng.randint(0, 4), rng.randint(0, 4)
+            shape = rng.choice([[h, w], [h, w], [w, h], [h], [], [h, w, 1], [h + 1, w], [h, max(w - 1, 0)], [1, h, w]])
+            cases.append({'kind': 'mask', 'shape': shape, 'box': [rng.randint(-3, 3), rng.randint(-3, 3), h, w]})
         # Regions lists
         n_list = 400 if tier == 'quick' else 20000
         for _ in range(n_list):
@@ -903,6 +912,26 @@ class Check(PropertyCheck):
             out['steps'].append(st)
         return out
 
+    def _real_mask(self, case):
+        from regions import RegionBoundingBox, RegionMask
+        x0, y0, h, w = case['box']
+        bbox = RegionBoundingBox(x0, x0 + w, y0, y0 + h)
+        try:
+            m = RegionMask(np.zeros(tuple(case['shape'])), bbox)
+            return {'r': 'ok', 'shape': list(m.data.shape), 'bshape': list(m.bbox.shape)}
+        except Exception as e:
+            return {'r': exc_name(e)}
+
+    def _oracle_mask(self, case, real):
+        x0, y0, h, w = case['box']
+        agree = case['shape'] == [h, w]
+        if real['r'] == 'ok' and (not agree or real['shape'] != real['bshape']):
+            return [{'kind': 'mask_shape_mismatch_accepted', 'detail': f'RegionMask data {case["shape"]} with box shape {[h, w]}'}]
+        if real['r'] != 'ok' and (agree or real['r'] != 'ValueError'):
+            return [{'kind': 'domain_value_rejected' if agree else 'wrong_exception_class',
+                     'detail': f'RegionMask data {case["shape"]} with box shape {[h, w]}: {real["r"]}'}]
+        return []
+
     # ---------------------------------------------------------------- model
     @staticmethod
     def _val_json(name):
@@ -961,6 +990,8 @@ class Check(PropertyCheck):
                         except Exception as e:
                             req['foreign'] = {'err': exc_name(e)}
             return [req]
+        if k == 'mask':
+            return [{'op': 'c17.mask', 'shape': case['shape'], 'box': case['box'][2:]}]
         if k == 'meta':
             req = {'op': 'c17.meta', 'vis': case['vis'], 'ops': case['ops']}
             if 'fromkeys' in case:
@@ -984,6 +1015,8 @@ class Check(PropertyCheck):
             return False
         if case['kind'] == 'validate':
             return real == model
+        if case['kind'] == 'mask':
+            return real['r'] == model['r']
         if real['ctor'] != model['ctor']:
             return False
         if real['ctor'] != 'ok':
@@ -1033,7 +1066,7 @@ class Check(PropertyCheck):
         if k in SIZE_DESCR and self._nonfinite(v):
             V.append({'kind': 'nonfinite_size_accepted', 'descr': k, 'value': self._nonfinite(v), 'where': where,
                       'detail': f'{cn}.{f} <- {op_desc} accepted ({where})'})
-        elif k == 'plain':
+        elif k in ('plain', 'TextString'):
             V.append({'kind': 'text_param_unprotected', 'param': f, 'what': 'non-str accepted', 'where': where,
                       'detail': f'{cn}.{f} <- {op_desc} accepted ({where}); documented type is str'})
         elif k in ('RegionMetaDescr', 'RegionVisualDescr'):
@@ -1182,16 +1215,14 @@ class Check(PropertyCheck):
 
     # ---------------------------------------------------------------- evidence
     def nontrivial(self, case, real):
-        if case['kind'] == 'validate':
-            return True
-        if real.get('ctor') != 'ok':
-            return True
         return True
 
     def bucket(self, case, real):
         k = case['kind']
         if k == 'validate':
             return f"validate/{case['descr']}/{'accepted' if real.get('r') == 'ok' else real.get('r')}"
+        if k == 'mask':
+            return f"mask-ctor/{real.get('r')}"
         if k == 'region':
             if real.get('ctor') != 'ok':
                 return f"region/{case.get('grp')}/ctor-{real.get('ctor')}"
